@@ -21,7 +21,7 @@ for i in ids:
             'thorough_cmd': 'python3 check.py %s --tier thorough' % i,
             'evidence_file': 'evidence/%s.json' % i, 'replay_cmd_template': 'python3 check.py %s --replay {path}' % i,
             'engine': 'coq-model+correspondence',
-            'level_claimed': {'category': 'proof', 'text': text or LEVEL_TEXT, 'design_ref': 'DESIGN.md section 7 ' + i},
+            'level_claimed': {'category': 'proof', 'text': text or LEVEL_TEXT, 'design_ref': 'DESIGN.md section 7 ' + i + ' (plan) and section 12.3 (as built)'},
             'level_note': NOTE + ('; ' + note if note else ''), 'technique': tech})
 m = {
     'version': 1, 'setup_cmd': 'python3 check.py --setup',
